@@ -3,3 +3,13 @@ import TmVerif.Model.Mapper
 import TmVerif.Monitors
 import TmVerif.Driver.Proto
 import TmVerif.Driver.MapperCmd
+import TmVerif.Proofs.Emits
+import TmVerif.Proofs.Inv
+import TmVerif.Proofs.StepInv
+import TmVerif.Proofs.Reach
+import TmVerif.Proofs.Fired
+import TmVerif.Props.C01
+import TmVerif.Props.C02
+import TmVerif.Props.C07
+import TmVerif.Props.C09
+import TmVerif.Props.C19
